@@ -1,7 +1,9 @@
 """C19 — population containers index correctly and load each file at most once, on demand."""
+import contextlib
 import os
 import shutil
 import tempfile
+import time
 import warnings
 
 from harness import gen
@@ -16,21 +18,35 @@ THEOREMS = [
 TRUSTED = ["hand-written models Model/Population.lean of _get_idx / LazyLoadingTrees / ChainTrees / NestTrees / Population construction "
            "(tied by the c19.lazy and c19.chain correspondence: returned file and read log compared exactly for every operation script)"]
 ASSUMPTIONS = ["os.walk order (file order is whatever find_swcs returns; the suites compare against that list)", "slice.indices (CPython)",
-               "ProcessPoolExecutor.map preserves order (observed on a process pool in the sandbox)", "reads are observed by wrapping Tree.from_swc from the harness"]
+               "ProcessPoolExecutor.map / tqdm's process_map preserve order (observed on process pools in the sandbox, with jobs of unequal duration)",
+               "reads are observed by wrapping Tree.from_swc from the harness"]
 
 
 def root_x(t):                      # top-level so that it can be pickled for Population.map
     return float(t.x()[0])
 
 
-def write_dir(d, names, marker0=0):
+def paced_root_x(t):                # the same measurement with a cost that depends on the tree: the root's y coordinate is a delay in units of 10 ms
+    time.sleep(0.01 * float(t.y()[0]))
+    return float(t.x()[0])
+
+
+def write_dir(d, names, marker0=0, ys=None):
     os.makedirs(d, exist_ok=True)
     for k, nm in enumerate(names):
         sub = os.path.dirname(nm)
         if sub:
             os.makedirs(os.path.join(d, sub), exist_ok=True)
+        y = ys[k] if ys else 0
         with open(os.path.join(d, nm), "w") as f:
-            f.write(f"1 1 {marker0 + k} 0 0 1 -1\n2 3 {marker0 + k} 1 0 1 1\n")
+            f.write(f"1 1 {marker0 + k} {y} 0 1 -1\n2 3 {marker0 + k} {y + 1} 0 1 1\n")
+
+
+def file_no(path):                  # t007.swc → 7 (names are t<k>.swc with at least three digits)
+    return int(os.path.basename(path)[1:-4])
+
+
+OTHER = 100000                      # markers of the j-th unrelated population of a lazy case start at OTHER * (j + 1)
 
 
 class ReadLog:
@@ -61,33 +77,67 @@ class LazySuite(Suite):
     name = "c19.lazy"
     case_timeout = 60
 
+    @staticmethod
+    def _script(rng, n, nops):
+        ops = []
+        for _ in range(nops):
+            r = rng.random()
+            if r < 0.45:
+                ops.append(("g", rng.randint(-n - 2, n + 1)))
+            elif r < 0.55 and n:
+                ops.append(("l", rng.randrange(n)))
+            elif r < 0.66:
+                ops.append(("i",))
+                if n and rng.random() < 0.8:      # … then the same trees again by index (each file is still read once)
+                    ops.append(("g", rng.randrange(-n, n)))
+            elif r < 0.7:
+                ops.append(("n",))
+            else:
+                a, b, c = rng.choice([None, rng.randint(-n - 1, n + 1)]), rng.choice([None, rng.randint(-n - 1, n + 1)]), rng.choice([None, 1, 2, -1])
+                key = rng.randint(-3, 3)
+                ops.append(("s", a, b, c, key))
+                idxs = list(range(*slice(a, b, c).indices(n)))
+                if idxs and rng.random() < 0.6:      # … and the same file again through the population itself, or through a second slice
+                    j = idxs[key] if -len(idxs) <= key < len(idxs) else rng.choice(idxs)
+                    ops.append(rng.choice([("g", j), ("g", j - n), ("s", j, j + 1, None, 0)]))
+        return ops
+
+    @staticmethod
+    def _revisits(rng, n, k):
+        """k accesses to trees that were loaded some time ago: by index from either end, through a slice, by `load`"""
+        ops = []
+        for _ in range(k):
+            j = rng.randrange(n)
+            ops.append(rng.choice([("g", j), ("g", j - n), ("s", j, None, rng.choice([None, 1, 3]), 0), ("s", None, j + 1, None, -1), ("l", j)]))
+        return ops
+
     def cases(self, rng, tier, widen):
         out = []
         big = tier == "thorough" or widen
         for _ in range(60 if big else 25):
             n = rng.choice([0, 1, 2, 3, 5, 9])
-            ops = []
-            for _ in range(rng.randint(1, 12)):
-                r = rng.random()
-                if r < 0.45:
-                    ops.append(("g", rng.randint(-n - 2, n + 1)))
-                elif r < 0.55 and n:
-                    ops.append(("l", rng.randrange(n)))
-                elif r < 0.66:
-                    ops.append(("i",))
-                    if n and rng.random() < 0.8:      # … then the same trees again by index (each file is still read once)
-                        ops.append(("g", rng.randrange(-n, n)))
-                elif r < 0.7:
-                    ops.append(("n",))
-                else:
-                    a, b, c = rng.choice([None, rng.randint(-n - 1, n + 1)]), rng.choice([None, rng.randint(-n - 1, n + 1)]), rng.choice([None, 1, 2, -1])
-                    key = rng.randint(-3, 3)
-                    ops.append(("s", a, b, c, key))
-                    idxs = list(range(*slice(a, b, c).indices(n)))
-                    if idxs and rng.random() < 0.6:      # … and the same file again through the population itself, or through a second slice
-                        j = idxs[key] if -len(idxs) <= key < len(idxs) else rng.choice(idxs)
-                        ops.append(rng.choice([("g", j), ("g", j - n), ("s", j, j + 1, None, 0)]))
+            ops = self._script(rng, n, rng.randint(1, 12))
             out.append({"class": f"n{n}", "n": n, "ops": ops, "pop": rng.random() < 0.7, "nested": rng.random() < 0.3})
+        # directories of hundreds of files (more trees than any small, bounded store would keep): everything is loaded once, then trees
+        # loaded long ago are requested again — by index from either end, through slices, by a second iteration
+        for k in range(8 if big else 2):
+            n = rng.randint(1000, 2600) if (big and k % 4 == 3) else rng.randint(300, 700)
+            ops = self._script(rng, n, rng.randint(0, 3)) + [("i",)] + self._revisits(rng, n, rng.randint(3, 6))
+            if rng.random() < 0.5:
+                ops += [("i",)] + self._revisits(rng, n, 2)
+            out.append({"class": "n-hundreds", "n": n, "ops": ops, "pop": k % 2 == 0 or rng.random() < 0.5, "nested": rng.random() < 0.3, "big": n > 1000})
+        # several unrelated populations alive at the same time and used alternately: what one of them has loaded stays loaded (and stays
+        # its own) whatever the others do in between
+        for k in range(8 if big else 2):
+            n = rng.choice([2, 5, 9]) if k % 2 else rng.randint(40, 160)
+            others = [rng.randint(40, 160) if k % 2 == 0 or rng.random() < 0.5 else rng.choice([1, 3, 9]) for _ in range(rng.randint(1, 3))]
+            ops = []
+            for _ in range(rng.randint(3, 6)):
+                ops += self._script(rng, n, rng.randint(1, 3)) if rng.random() < 0.6 else [("i",)] + self._revisits(rng, n, 1)
+                j = rng.randrange(len(others))
+                ops.append(("O", j) if rng.random() < 0.6 else ("o", j, rng.randrange(-others[j], others[j])))
+            ops += [("i",)] + self._revisits(rng, n, 2) + [("O", j) for j in range(len(others))]
+            out.append({"class": "n-with-others", "n": n, "others": others, "ops": ops, "pop": rng.random() < 0.7, "nested": rng.random() < 0.3})
         return out
 
     def run(self, case):
@@ -97,20 +147,27 @@ class LazySuite(Suite):
         tmp = tempfile.mkdtemp(prefix="c19_")
         try:
             names = [f"t{k:03d}.swc" if not case["nested"] or k % 2 == 0 else f"sub/t{k:03d}.swc" for k in range(case["n"])]
-            write_dir(tmp, names)
+            write_dir(os.path.join(tmp, "main"), names)
+            for j, m in enumerate(case.get("others", [])):
+                write_dir(os.path.join(tmp, f"other{j}"), [f"t{k:03d}.swc" for k in range(m)], marker0=OTHER * (j + 1))
             with warnings.catch_warnings():
                 warnings.simplefilter("ignore")
                 with ReadLog() as rl:
                     if case["pop"]:
-                        pop = Population.from_swc(tmp)
+                        pop = Population.from_swc(os.path.join(tmp, "main"))
                         files = list(pop.trees.swcs)
                         obj = pop
                     else:
-                        files = Population.find_swcs(tmp)
+                        files = Population.find_swcs(os.path.join(tmp, "main"))
                         obj = LazyLoadingTrees(files)
+                    others = [Population.from_swc(os.path.join(tmp, f"other{j}")) for j in range(len(case.get("others", [])))]
                     ident = lambda t: int(round(float(t.x()[0])))
-                    fidx = {f: int(os.path.basename(f)[1:4]) for f in files}
+                    fidx = {f: file_no(f) for f in files}
                     order = [fidx[f] for f in files]          # marker of the i-th file
+                    other_order = []
+                    for j, o in enumerate(others):
+                        fidx.update({f: OTHER * (j + 1) + file_no(f) for f in o.trees.swcs})
+                        other_order.append([fidx[f] for f in o.trees.swcs])
                     res = []
                     for op in case["ops"]:
                         try:
@@ -122,6 +179,10 @@ class LazySuite(Suite):
                                 res.append([ident(t) for t in obj])
                             elif op[0] == "n":
                                 res.append([len(obj)])
+                            elif op[0] == "o":
+                                res.append([ident(others[op[1]][op[2]])])
+                            elif op[0] == "O":
+                                res.append([ident(t) for t in others[op[1]]])
                             else:
                                 if not case["pop"]:
                                     res.append("skip"); continue
@@ -132,7 +193,10 @@ class LazySuite(Suite):
                         except IndexError:
                             res.append("E")
                     log = [fidx[f] for f in rl.log]
-            return {"order": order, "res": res, "log": log}
+            out = {"order": order, "res": res, "log": log}
+            if others:
+                out["other_order"] = other_order
+            return out
         finally:
             shutil.rmtree(tmp, ignore_errors=True)
 
@@ -146,6 +210,8 @@ class LazySuite(Suite):
         # model works with positions in the file list; translate markers → positions
         toks, exp = [], []
         for op, r in zip(case["ops"], res["res"]):
+            if op[0] in ("o", "O"):
+                continue          # an operation on another population: not an operation of this container (its reads are left out of the log below)
             if op[0] == "s" or r == "skip":
                 if isinstance(r, dict):
                     # a slice is NestTrees over the index list; its element access is a `get` on the underlying trees
@@ -161,7 +227,7 @@ class LazySuite(Suite):
         line = f"lazy n={case['n']} pop={int(case['pop'])} ops={';'.join(toks) or 'n'}"
         if not toks:
             exp = [f"[{case['n']}]"]
-        return [(line, " ".join(exp) + " / " + ",".join(str(pos[m]) for m in res["log"]))]
+        return [(line, " ".join(exp) + " / " + ",".join(str(pos[m]) for m in res["log"] if m < OTHER))]
 
     def oracle(self, case, res):
         if "exc" in res:
@@ -169,11 +235,17 @@ class LazySuite(Suite):
         out = []
         n = case["n"]
         order, log = res["order"], res["log"]
+        show = (lambda ops: ops) if len(str(case["ops"])) < 400 else (lambda ops: f"{len(ops)} operations on {n} files, see the case")
         if len(set(log)) != len(log):
-            dup = [m for m in log if log.count(m) > 1][0]
-            out.append(("read-twice", f"file #{dup} was read {log.count(dup)} times (ops={case['ops']})"))
+            cnt = {}
+            for m in log:
+                cnt[m] = cnt.get(m, 0) + 1
+            dups = [m for m in cnt if cnt[m] > 1]
+            out.append(("read-twice", f"file #{dups[0]} was read {cnt[dups[0]]} times; {len(dups)} of {len(cnt)} files were read more than once "
+                                      f"(ops={show(case['ops'])})"))
         # on demand: every read file was requested (or is the construction probe of file 0)
         requested = set()
+        oo = res.get("other_order", [])
         for op, r in zip(case["ops"], res["res"]):
             if r in ("E", "skip"):
                 continue
@@ -187,7 +259,7 @@ class LazySuite(Suite):
             elif op[0] == "i":
                 requested.update(order)
                 if r != order:
-                    out.append(("iter-order", f"iteration gave {r}, files are {order}"))
+                    out.append(("iter-order", f"iteration gave {r[:20]}…, files are {order[:20]}…" if len(order) > 20 else f"iteration gave {r}, files are {order}"))
             elif op[0] == "n":
                 if r != [n]:
                     out.append(("len", f"len = {r[0]}, {n} files"))
@@ -198,15 +270,27 @@ class LazySuite(Suite):
                 requested.add(order[idxs[r["key"]]])
                 if r["got"] != order[idxs[r["key"]]]:
                     out.append(("slice-wrong-tree", f"slice{op[1:4]}[{op[4]}] returned file #{r['got']}, expected #{order[idxs[r['key']]]}"))
+            elif op[0] == "o":
+                want = oo[op[1]][op[2]]
+                requested.add(want)
+                if r != [want]:
+                    out.append(("wrong-tree", f"index {op[2]} of the {op[1]}-th other population returned the tree of file #{r[0]}, its file there is #{want} "
+                                              f"(populations alive: {n} and {case['others']} files)"))
+            elif op[0] == "O":
+                requested.update(oo[op[1]])
+                if r != oo[op[1]]:
+                    out.append(("iter-order", f"iteration over the {op[1]}-th other population gave {r[:20]}, its files are {oo[op[1]][:20]}"))
         for op, r in zip(case["ops"], res["res"]):
             if op[0] == "g" and not (-n <= op[1] < n) and r != "E":
                 out.append(("index-out-of-range-accepted", f"index {op[1]} of {n} returned {r}"))
             if op[0] == "g" and (-n <= op[1] < n) and r == "E":
                 out.append(("valid-index-rejected", f"index {op[1]} of {n} raised IndexError"))
-        probe = {order[0]} if (case["pop"] and n) else set()
+            if op[0] == "s" and r == "E" and -len(range(*slice(*op[1:4]).indices(n))) <= op[4] < len(range(*slice(*op[1:4]).indices(n))) and case["pop"]:
+                out.append(("valid-index-rejected", f"slice{tuple(op[1:4])}[{op[4]}] of {n} files raised IndexError"))
+        probe = ({order[0]} if (case["pop"] and n) else set()) | {o[0] for o in oo if o}
         extra = [m for m in log if m not in requested and m not in probe]
         if extra:
-            out.append(("read-not-requested", f"files {extra} were read although never requested (ops={case['ops']})"))
+            out.append(("read-not-requested", f"files {extra[:10]} were read although never requested (ops={show(case['ops'])})"))
         return out[:3]
 
     def nontrivial(self, case, res):
@@ -227,6 +311,14 @@ class ChainSuite(Suite):
             keys = sorted({rng.randint(-total - 1, total) for _ in range(8)} | {0, -1, total - 1, total, -total})
             out.append({"class": f"m{m}", "lens": lens, "keys": keys, "via": rng.choice(["chain", "to_population", "to_population"]),
                         "map": rng.random() < (0.25 if not big else 0.5)})
+        # members of tens to hundreds of files (the chained view holds more trees than any one member, and more than a small bounded store)
+        for k in range(8 if big else 2):
+            m = rng.choice([2, 3, 4])
+            lens = [rng.choice([0, rng.randint(20, 90), rng.randint(90, 250)]) for _ in range(m)]
+            lens[rng.randrange(m)] = rng.randint(90, 250)
+            total = sum(lens)
+            keys = sorted({rng.randint(-total - 1, total) for _ in range(8)} | {0, -1, total - 1, total, -total})
+            out.append({"class": "m-hundreds", "lens": lens, "keys": keys, "via": ["chain", "to_population"][k % 2], "map": k % 4 == 1})
         return out
 
     def run(self, case):
@@ -243,32 +335,46 @@ class ChainSuite(Suite):
                     d = os.path.join(tmp, f"d{k}")
                     write_dir(d, [f"t{i:03d}.swc" for i in range(n)], marker0=1000 * k)
                     os.makedirs(d, exist_ok=True)
-                    p = Population.from_swc(d)
-                    files_by_member.append([1000 * k + int(os.path.basename(f)[1:4]) for f in p.trees.swcs])
-                    pops.append(p)
-                if case["via"] == "chain":
-                    chain = ChainTrees([p.trees for p in pops])
-                    obj = chain
-                else:
-                    ps = Populations(pops)
-                    obj = ps.to_population()
-                ident = lambda t: int(round(float(t.x()[0])))
-                res = {"len": len(obj), "gets": [], "members": files_by_member}
-                for key in case["keys"]:
-                    try:
-                        res["gets"].append(ident(obj[key]))
-                    except IndexError:
-                        res["gets"].append("E")
-                res["iter"] = [ident(t) for t in obj]
-                if case["map"] and case["via"] != "chain":
-                    res["map"] = [float(v) for v in obj.map(root_x, max_worker=2)]
-                # a transform mapped over a population: one tree per member, in order, each the transform of its member
-                from swcgeom.transforms import Translate
-                from swcgeom.transforms.population import PopulationTransform
+                with ReadLog() as rl:         # the reads of the member files, through whatever view they are requested
+                    fno = {}
+                    for k, n in enumerate(case["lens"]):
+                        p = Population.from_swc(os.path.join(tmp, f"d{k}"))
+                        fno.update({str(f): 1000 * k + file_no(f) for f in p.trees.swcs})
+                        files_by_member.append([fno[str(f)] for f in p.trees.swcs])
+                        pops.append(p)
+                    if case["via"] == "chain":
+                        chain = ChainTrees([p.trees for p in pops])
+                        obj = chain
+                    else:
+                        ps = Populations(pops)
+                        obj = ps.to_population()
+                    ident = lambda t: int(round(float(t.x()[0])))
+                    res = {"len": len(obj), "gets": [], "members": files_by_member}
+                    res["reads_built"] = [fno[f] for f in rl.log]
+                    for key in case["keys"]:
+                        try:
+                            res["gets"].append(ident(obj[key]))
+                        except IndexError:
+                            res["gets"].append("E")
+                    res["reads_gets"] = [fno[f] for f in rl.log]
+                    res["iter"] = [ident(t) for t in obj]
+                    # … and the same keys once more, now that everything has been loaded
+                    res["gets_again"] = []
+                    for key in case["keys"]:
+                        try:
+                            res["gets_again"].append(ident(obj[key]))
+                        except IndexError:
+                            res["gets_again"].append("E")
+                    if case["map"] and case["via"] != "chain":
+                        res["map"] = [float(v) for v in obj.map(root_x, max_worker=2)]
+                    # a transform mapped over a population: one tree per member, in order, each the transform of its member
+                    from swcgeom.transforms import Translate
+                    from swcgeom.transforms.population import PopulationTransform
 
-                if case["via"] != "chain" and len(obj):
-                    moved = PopulationTransform(Translate(0.5, 0.0, 0.0))(obj)
-                    res["mapped"] = {"len": len(moved), "x": [float(tt.x()[0]) for tt in moved], "src_same": [os.path.basename(a.source) == os.path.basename(b.source) for a, b in zip(moved, obj)]}
+                    if case["via"] != "chain" and len(obj):
+                        moved = PopulationTransform(Translate(0.5, 0.0, 0.0))(obj)
+                        res["mapped"] = {"len": len(moved), "x": [float(tt.x()[0]) for tt in moved], "src_same": [os.path.basename(a.source) == os.path.basename(b.source) for a, b in zip(moved, obj)]}
+                    res["reads"] = [fno[f] for f in rl.log]
                 # ESWC directories
                 ed = os.path.join(tmp, "eswc")
                 os.makedirs(ed, exist_ok=True)
@@ -334,8 +440,29 @@ class ChainSuite(Suite):
                     out.append((f"chain-index/{case['via']}", f"chain[{key}] returned file #{g}, concatenation has #{conc[key]} (lens={case['lens']})")); break
             elif g != "E":
                 out.append(("chain-index-out-of-range", f"chain[{key}] of {total} returned {g}")); break
+        for key, g in zip(case["keys"], res.get("gets_again", [])):
+            if (-total <= key < total and g != conc[key]) or (not (-total <= key < total) and g != "E"):
+                out.append((f"chain-index/{case['via']}", f"chain[{key}] after an iteration returned {g}, concatenation has "
+                                                          f"{'#' + str(conc[key]) if -total <= key < total else 'no such element'} (lens={case['lens']})")); break
         if res["iter"] != conc and res["len"] == total:
-            out.append(("chain-iter", f"iteration {res['iter']} ≠ concatenation {conc}"))
+            out.append(("chain-iter", f"iteration {res['iter'][:30]} ≠ concatenation {conc[:30]}" + (" (first 30 each)" if total > 30 else "")))
+        if "reads" in res:
+            # at most once: however a member file is reached (chained index, iteration, map, transform), it is read a single time
+            cnt = {}
+            for m_ in res["reads"]:
+                cnt[m_] = cnt.get(m_, 0) + 1
+            dups = [m_ for m_ in cnt if cnt[m_] > 1]
+            if dups:
+                out.append(("read-twice/chain", f"file #{dups[0]} (member {dups[0] // 1000}) was read {cnt[dups[0]]} times through the chained view; {len(dups)} of {len(cnt)} "
+                                                f"files were read more than once (lens={case['lens']}, via {case['via']}, keys {case['keys']} → iteration → the keys again"
+                                                f"{' → map' if 'map' in res else ''}{' → transform' if 'mapped' in res else ''})"))
+            # on demand: construction reads at most the first file of a member; the indexed files are the only further reads before the iteration
+            firsts = {mem[0] for mem in res["members"] if mem}
+            early = [m_ for m_ in res["reads_built"] if m_ not in firsts]
+            asked = {conc[key] for key in case["keys"] if -total <= key < total}
+            early += [m_ for m_ in res["reads_gets"][len(res["reads_built"]):] if m_ not in asked and m_ not in firsts]
+            if early:
+                out.append(("read-not-requested/chain", f"files {early[:10]} were read although not requested yet (lens={case['lens']}, via {case['via']}, keys {case['keys']})"))
         if "map" in res and [int(round(v)) for v in res["map"]] != conc:
             out.append(("map-order", f"map returned {res['map']}, trees in order are {conc}"))
         if "mapped" in res:
@@ -361,11 +488,104 @@ class ChainSuite(Suite):
         return sum(case["lens"]) >= 2
 
 
-SUITES = [LazySuite(), ChainSuite()]
+class MapSuite(Suite):
+    """`Population.map` under every option it takes (progress bar on / off, one / several / default number of workers), with functions whose cost differs
+    from tree to tree so that the jobs do not finish in the order in which they were handed out: one result per tree, in population order."""
+    name = "c19.map"
+    case_timeout = 90
+    repeat = 4
+    PROFILES = ["first-slow", "decreasing", "random", "none", "last-slow"]
+
+    def cases(self, rng, tier, widen):
+        out = []
+        big = tier == "thorough" or widen
+        for k in range(40 if big else 10):
+            # stratified: every (verbose, one worker / several workers) combination occurs, each with jobs of unequal duration
+            verbose = k % 2 == 1
+            workers = 1 if (k // 2) % 2 == 0 else rng.choice([2, 2, 3, 4, None])
+            profile = self.PROFILES[(k // 4) % len(self.PROFILES)]
+            n = rng.randint(3, 6) if k < 8 else (rng.choice([0, 1, 2]) if rng.random() < 0.3 else rng.randint(2, 6))
+            if profile == "first-slow":
+                delays = [25] + [0] * (n - 1)
+            elif profile == "last-slow":
+                delays = [0] * (n - 1) + [25]
+            elif profile == "decreasing":
+                delays = [4 * (n - 1 - i) for i in range(n)]
+            elif profile == "random":
+                delays = [rng.randint(0, 12) for _ in range(n)]
+            else:
+                delays = [0] * n
+            delays = delays[:n]
+            shape = rng.choice(["flat", "nested", "chain"])
+            cuts = sorted(rng.randint(0, n) for _ in range(rng.randint(1, 2))) if shape == "chain" else []
+            lens = [b - a for a, b in zip([0] + cuts, cuts + [n])] if shape == "chain" else [n]
+            out.append({"class": f"{'bar' if verbose else 'plain'}/{'1' if workers == 1 else 'many'}/{profile}", "verbose": verbose, "workers": workers,
+                        "delays": delays, "shape": shape, "lens": lens})
+        return out
+
+    def run(self, case):
+        from swcgeom.core import Population, Populations
+
+        tmp = tempfile.mkdtemp(prefix="c19m_")
+        try:
+            with warnings.catch_warnings():
+                warnings.simplefilter("ignore")
+                # lay the files out, ask the library in which order it lists them, then give the tree at position i of the population the i-th delay
+                dirs, at = [], 0
+                for k, n in enumerate(case["lens"]):
+                    d = os.path.join(tmp, f"d{k}")
+                    names = [f"t{i:03d}.swc" if case["shape"] != "nested" or i % 2 == 0 else f"sub{i % 3}/t{i:03d}.swc" for i in range(n)]
+                    write_dir(d, names, marker0=1000 * k)
+                    if case["shape"] == "nested":
+                        os.makedirs(os.path.join(d, "empty", "inner"), exist_ok=True)
+                    listed = Population.find_swcs(d)
+                    for f in listed:
+                        with open(f, "w") as fh:
+                            m, y = 1000 * k + file_no(f), case["delays"][at]
+                            fh.write(f"1 1 {m} {y} 0 1 -1\n2 3 {m} {y + 1} 0 1 1\n")
+                        at += 1
+                    dirs.append(d)
+                with ReadLog() as rl:
+                    pops = [Population.from_swc(d) for d in dirs]
+                    pop = pops[0] if case["shape"] != "chain" else Populations(pops).to_population()
+                    order = [1000 * k + file_no(f) for k, p in enumerate(pops) for f in p.trees.swcs]
+                    with open(os.devnull, "w") as null, contextlib.redirect_stderr(null):      # the progress bar goes to stderr
+                        got = [float(v) for v in pop.map(paced_root_x, max_worker=case["workers"], verbose=case["verbose"])]
+                    after = [int(round(float(t.x()[0]))) for t in pop]
+                    fno = {str(f): 1000 * k + file_no(f) for k, p in enumerate(pops) for f in p.trees.swcs}
+                    reads = [fno[f] for f in rl.log]
+            return {"order": order, "map": got, "after": after, "reads": reads}
+        finally:
+            shutil.rmtree(tmp, ignore_errors=True)
+
+    def oracle(self, case, res):
+        if "exc" in res:
+            return [("map-raises", f"{res['exc']}: {res.get('msg')}")]
+        out = []
+        order = res["order"]
+        opts = f"max_worker={case['workers']}, verbose={case['verbose']}"
+        if len(res["map"]) != len(order):
+            out.append(("map-len", f"map({opts}) returned {len(res['map'])} results for {len(order)} trees"))
+        elif [int(round(v)) for v in res["map"]] != order:
+            out.append(("map-order", f"map({opts}) returned {[int(round(v)) for v in res['map']]}, the trees in population order are {order} "
+                                     f"(the function sleeps {[10 * d for d in case['delays']]} ms on them)"))
+        if res["after"] != order:
+            out.append(("iter-order", f"iteration after map gave {res['after']}, files are {order}"))
+        dups = sorted({m for m in res["reads"] if res["reads"].count(m) > 1})
+        if dups:
+            out.append(("read-twice/map", f"files {dups} were read more than once by construction → map({opts}) → iteration"))
+        return out[:3]
+
+    def nontrivial(self, case, res):
+        return len(case["delays"]) >= 2
+
+
+SUITES = [LazySuite(), ChainSuite(), MapSuite()]
 TECHNIQUE = ("Lean 4 theorems: the lazy cache as a state machine (every operation history reads each file at most once and only files that were requested or the "
              "construction probe of file 0; index arithmetic incl. negative indices), the binary search of ChainTrees (invariant: returns the member and offset of "
              "the k-th element of the concatenation, empty members allowed; total length) + differential correspondence on operation scripts over real "
-             "directories with reads observed + direct oracle")
+             "directories with reads observed (also directories of hundreds of files revisited after a full pass, several populations alive and used alternately, "
+             "chained views over large members) + Population.map under every option with jobs of unequal duration + direct oracle")
 LEVEL_TEXT = ("Kernel-checked for every history of get / load / iterate / len operations: a file is read only when its slot is empty, so at most once, and only "
               "when requested (plus slot 0 at Population construction); get(k) returns file k (k+n for negative k) and raises outside [-n, n). Kernel-checked for "
               "every list of member lengths (zeros allowed): chained length = sum, and chain[k] is element k of the concatenation.")
